@@ -49,7 +49,24 @@ var (
 	orderOn      atomic.Bool
 )
 
+// A logical step budget for calls that have no tick limit of their own (SinglePipelineSimulate
+// runs until its outputs are valid): the hook is called a fixed number of times per simulated
+// tick, so "many times more hook calls than the same call needed when it ran alone" means the
+// run has left the reference trace and will not come back; decided on counted steps, not on time.
+var (
+	budgetOn    atomic.Bool
+	budgetCalls atomic.Int64
+	budgetMax   atomic.Int64
+	budgetOnce  sync.Once
+	budgetFire  func(calls int64)
+)
+
 func yieldCB(site string, procID int) {
+	if budgetOn.Load() {
+		if c := budgetCalls.Add(1); c > budgetMax.Load() {
+			budgetOnce.Do(func() { budgetFire(c) })
+		}
+	}
 	n := yieldCount.Add(1)
 	h := fnv.New64a()
 	var b [24]byte
@@ -385,6 +402,27 @@ func workload(run *evid.Run, tier string, race bool) {
 				continue
 			}
 			callers := 8
+			// the same call alone, counted in hook calls (the reference for the step budget)
+			budgetCalls.Store(0)
+			budgetMax.Store(20_000_000)
+			budgetFire = func(calls int64) {
+				run.Inconclusive("sps-reference-exceeded-the-step-bound")
+				fmt.Fprintf(os.Stderr, "C09: SinglePipelineSimulate(%s) alone on %s did not end within %d hook calls\n", dt, n.String(), calls)
+				os.Exit(run.Finish() | 2)
+			}
+			budgetOn.Store(true)
+			_, _ = bm.SinglePipelineSimulate(dt, []string{"7"}, nil)
+			budgetOn.Store(false)
+			refCalls := budgetCalls.Load()
+			budgetCalls.Store(0)
+			budgetMax.Store(int64(callers)*refCalls*100 + 100_000)
+			budgetFire = func(calls int64) {
+				run.Violation("sps-concurrent-does-not-end:"+dtBase, map[string]any{"machine": n.String(), "data_type": dt, "concurrent_callers": callers,
+					"hook_calls_of_the_call_alone": refCalls, "hook_calls_when_stopped": calls,
+					"what": "concurrent SinglePipelineSimulate calls on one machine used more than 100 times the simulation steps the same call needs alone and had not returned: a call left the trace of the solo run"})
+				os.Exit(run.Finish())
+			}
+			budgetOn.Store(true)
 			res := make([][]string, callers)
 			errs := make([]error, callers)
 			var wg sync.WaitGroup
@@ -401,6 +439,7 @@ func workload(run *evid.Run, tier string, race bool) {
 				}(c)
 			}
 			wg.Wait()
+			budgetOn.Store(false)
 			want, err := bm.SinglePipelineSimulate(dt, []string{"7"}, nil)
 			if err != nil {
 				run.Inconclusive("sps-reference-failed:" + err.Error())
